@@ -159,6 +159,28 @@ def run_reformat_twin(prop: str, root: str, known) -> tuple[str, str]:
                 os.makedirs(os.path.dirname(dst), exist_ok=True)
                 with open(dst, "w", encoding="utf-8") as fh:
                     fh.write(ast.unparse(ast.parse(src)) + "\n")
+        # .lpy sources: whole-line comments dropped (line numbers move, no form changes); a file is
+        # only rewritten if the own reader sees exactly the same forms afterwards
+        from . import lispread as L
+        import re as _re
+        for d, _dn, fs in os.walk(base):
+            for f in fs:
+                if not f.endswith(".lpy"):
+                    continue
+                p = os.path.join(d, f)
+                with open(p, encoding="utf-8") as fh:
+                    src = fh.read()
+                out = "\n".join(ln for ln in src.split("\n") if not _re.match(r"^\s*;", ln))
+                try:
+                    same = [x.text() for x in L.read_all(src, p)] == [x.text() for x in L.read_all(out, p)]
+                except L.ReadError:
+                    same = False
+                if not same:
+                    continue
+                dst = os.path.join(tmp, os.path.relpath(p, root))
+                os.makedirs(os.path.dirname(dst), exist_ok=True)
+                with open(dst, "w", encoding="utf-8") as fh:
+                    fh.write(out)
         try:
             ref, _p, _m = analyse(prop, "quick", root, known=known)
             ctx, _p, _m = analyse(prop, "quick", root, overlay=tmp, known=known)
